@@ -99,6 +99,7 @@ def _expand(task):
             try:
                 ctx = replay(driver, hist)
                 ctx.hits = collections.Counter()
+                ctx.under_test = True   # prefix replays are known to be clean
                 try:
                     driver.apply(ctx, op)
                     obs = driver.check(ctx)
@@ -259,6 +260,7 @@ def replay_case(driver, case):
     """Re-execute one recorded history; return the Violation or None."""
     hist = [totuple(op) for op in case]
     ctx = driver.initial()
+    ctx.under_test = True
     try:
         for op in hist:
             ctx.hits = collections.Counter()
